@@ -6,7 +6,7 @@ import itertools
 
 from ..absint import FuncV, Interp, ObjV, State
 from ..forms import Const, Form, SliceV, TupleV, fpow, mk_fn, linear_in, is_real_form
-from ..rules import PI, S, body_nodes
+from ..rules import PI, S, body_nodes, check_late_binding
 from ..srcmodel import src_of
 
 EXPLANATION = (
@@ -81,9 +81,17 @@ def rule_ode(ctx):
         else:
             ctx.holds("C16.1", fi, rets[0].node, f"{case}: j*[[sigma, kappa], [-kappa, -sigma]], sigma = {sig!r}, kappa = {kap!r}"[:400], "lossless coupled-mode system (|R|^2-|S|^2 conserved)")
         if apo:
-            # apodisation multiplies both s and k by the same profile
+            # apodisation multiplies both s and k by the same profile, evaluated at the integration variable itself
             prof = [a for a in kap.atoms(deep=False) if a[0] == "fn" and a[1] == "call"]
             ctx.check("C16.1", bool(prof), fi, rets[0].node, f"{case}: apodisation profile scales kappa", "k*p(z)", "the coupling is not scaled by the apodisation profile")
+            zname = fi.params[0]
+            for a in prof:
+                arg = a[2][1] if len(a[2]) > 1 else None
+                ctx.check("C16.1", isinstance(arg, Form) and arg == S(zname), fi, rets[0].node, f"{case}: profile evaluated at {arg!r}", f"p({zname}): the user's profile along the grating",
+                          f"the apodisation callable is evaluated at {arg!r}, not at the position {zname}: a profile that is not symmetric/identical under that map is integrated wrongly "
+                          "(reflectivity at the Bragg frequency is no longer tanh^2(kL*integral of the profile))")
+            sprof = [a for a in sig.atoms(deep=False) if a[0] == "fn" and a[1] == "call"]
+            ctx.check("C16.1", set(sprof) <= set(prof) or not sprof, fi, rets[0].node, f"{case}: same profile on sigma and kappa", "one profile", "the DC and AC coupling use different apodisation profiles")
         chirp = Form({m: c for m, c in sig.terms.items() if any(a == ("sym", "F") for a, _ in m)})
         ctx.check("C16.1", chirp == -S("F") * S("z"), fi, rets[0].node, f"{case}: chirp term = {chirp!r}", "-F*z", "chirp term of the detuning is not -F*z")
 
@@ -301,6 +309,7 @@ def run(ctx):
     rule_boundary_and_apply(ctx)
     rule_routes(ctx)
     rule_spec_tree(ctx)
+    check_late_binding(ctx, "C16.5", ["devices.FBG"])
     ctx.require_min("C16.1", 8)
     ctx.require_min("C16.2", 3)
     ctx.require_min("C16.3", 10)
